@@ -8,6 +8,7 @@ import (
 	"os"
 	"path/filepath"
 	"regexp"
+	"runtime/debug"
 	"sort"
 	"strconv"
 	"strings"
@@ -99,6 +100,7 @@ func main() {
 	if s := os.Getenv("VERIF_SEED"); s != "" {
 		seed, _ = strconv.Atoi(s)
 	}
+	debug.SetGCPercent(800)
 	os.Setenv("PATH", filepath.Join(verifDir, "bin", "goshim")+":"+os.Getenv("PATH"))
 	start := time.Now()
 
@@ -376,7 +378,7 @@ func runHarness(prog *ssa.Program, pkg *ssa.Package, c harnessCfg, thorough bool
 	e := &Engine{ts: ts, sol: sol, prog: prog, pkg: pkg, FuncsSeen: map[string]bool{}, ModelsUsed: map[string]bool{},
 		Assumptions: map[string]bool{}, AssertSites: map[string]int{}, MaxSteps: 4000000, MaxPaths: 200000, MaxForks: 4096,
 		PreemptBound: c.Preempt, nodeByID: map[int]*PtrV{}, globals: map[*ssa.Global]*Object{}, overrides: c.Overrides,
-		tierThorough: thorough, crcMemo: map[string]*Term{}}
+		tierThorough: thorough, crcMemo: map[string]*Term{}, reMemo: map[string]*Term{}}
 	if c.MaxSteps > 0 {
 		e.MaxSteps = c.MaxSteps
 	}
